@@ -282,7 +282,12 @@ def run(ctx):
     cparam = params(cn, skip_self=False)[0] if cn.args.args else None
     gcalls = [c for c in ast.walk(cn) if isinstance(c, ast.Call) and isinstance(c.func, ast.Attribute) and c.func.attr == 'get_attributes_for_oid']
     whole = [c for c in gcalls if isinstance(c.func.value, ast.Attribute) and c.func.value.attr == 'subject' and isinstance(c.func.value.value, ast.Name) and c.func.value.value.id == cparam]
-    cuts = [x for x in ast.walk(cn) if (isinstance(x, ast.Subscript) and not isinstance(x.ctx, ast.Store)) or (isinstance(x, ast.comprehension) and x.ifs) or isinstance(x, (ast.Break, ast.If, ast.IfExp))
+    def _guards_param_only(x):
+        # an `if` that only looks at the certificate parameter itself (e.g. `if certificate is None: return []`) selects nothing
+        names = set(y.id for y in ast.walk(x.test) if isinstance(y, ast.Name))
+        return names <= {cparam}
+    cuts = [x for x in ast.walk(cn) if (isinstance(x, ast.Subscript) and not isinstance(x.ctx, ast.Store)) or (isinstance(x, ast.comprehension) and x.ifs) or isinstance(x, ast.Break)
+            or (isinstance(x, (ast.If, ast.IfExp)) and not _guards_param_only(x))
             or (isinstance(x, ast.Call) and call_name(x) in ('next', 'set', 'min', 'max', 'sorted'))]
     ctx.check(len(gcalls) == 1 and len(whole) == 1 and not cuts, 'C17.R4', 'get_common_names_from_certificate|all-common-names', '%s:%s' % (AUTH_UTILS, cn.lineno),
               'the list holds the value of every commonName attribute of the whole subject (one query on certificate.subject, no selection)',
